@@ -4,6 +4,7 @@ package main
 // probes behind hook H1 (C15).
 
 import (
+	"bufio"
 	"bytes"
 	"encoding/json"
 	"fmt"
@@ -150,7 +151,23 @@ func vbiDecEvent(b []byte) obj {
 	mv, mw, merr := verifVBIDecode(b)
 	sv, sn, serr := verifVBIRead(bytes.NewReader(b))
 	rk, rv, rw, rm := refRead(b)
-	return obj{"ev": "VBIDec", "bytes": ints(b),
+	// the streaming decoder again, the same bytes delivered in other legal ways: a zero-length read before every byte,
+	// the last byte together with io.EOF, one byte at a time with the last one carrying io.EOF, through a bufio.Reader
+	var ones, zeros []int
+	for range b {
+		ones = append(ones, 1)
+		zeros = append(zeros, 0, 1)
+	}
+	others := []any{}
+	for i, plan := range []readerPlan{{Chunks: zeros}, {With: true}, {Chunks: ones, With: true}, {Chunks: ones}} {
+		var rd io.Reader = newScriptedReader(b, plan)
+		if i == 3 {
+			rd = bufio.NewReaderSize(rd, 16)
+		}
+		v2, n2, err2 := verifVBIRead(rd)
+		others = append(others, obj{"ok": err2 == nil, "val": int(v2), "n": int(n2)})
+	}
+	return obj{"ev": "VBIDec", "bytes": ints(b), "others": others,
 		"mem":    obj{"ok": merr == nil, "val": int(mv), "width": mw},
 		"stream": obj{"ok": serr == nil, "val": int(sv), "n": int(sn)},
 		"ref":    obj{"kind": rk, "val": int(rv), "width": rw, "minimal": rm}}
